@@ -100,6 +100,9 @@ def run_property(prop, tier, seed, root=None, write_evidence=True, quiet=False, 
         r.mod.run(r)
         if tier == "thorough" and hasattr(r.mod, "run_thorough"):
             r.mod.run_thorough(r)
+        if not os.environ.get("PRSA_NO_DEPS"):
+            from .deps import run_dependencies
+            run_dependencies(r)
         demote_rewritten(r)
     except AnalysisBroken as e:
         demote_rewritten(r)
